@@ -204,7 +204,7 @@ fn merged_import_case(ctx: &mut Ctx, case: u64, rng: &mut Rng) {
 }
 
 pub fn run(ctx: &mut Ctx) {
-    let total = ctx.n(1_500, 6_000_000);
+    let total = ctx.n(15_000, 6_000_000);
     // directed witness of the recorded finding (resource of an interface that the world both imports,
     // as a dependency, and exports), then the random pairs
     let witness = crate::witness::WITNESS_BASE;
